@@ -159,7 +159,7 @@ theorem error_names_status (tr : Transport) (raw : Bytes)
   · rw [he]; exact .inr ⟨e, rfl, hc⟩
 
 /-- with a data type, "valid" additionally means the payload decoded -/
-theorem typed_valid_decodes (tr : Transport) (raw : Bytes) (ty : Ty) (v : PyVal) (p : Parsed)
+theorem typed_valid_decodes (tr : Transport) (raw : Bytes) (ty : Ty) (v : PyVal) (p : Reply.Parsed)
     (h : parseGeneric (some raw) tr (some ty) = (v, p, true)) :
     StatusWordsOk tr raw ∧ ∃ rest, decode ty (raw.drop (tr.off + 4)) = .ok (v, rest) := by
   simp only [parseGeneric] at h
